@@ -873,20 +873,24 @@ def c12_group(job):
         ts_f = tm.ts(ts_u)
         bm = p.bm(ts_f[0], ts_f[-1], max_calls=64)
         want_trace = bi in job["trace_idx"]
+        # options that only concern adaptive stepping must not matter with fixed steps: rotate them (a dt_min larger
+        # than the clipped last step, larger than dt, larger than the whole interval; loose / tight tolerances)
+        irr = [{}, dict(dt_min=1.5 * tm.tick), dict(dt_min=tm.dt(T) * 4, rtol=1e-1, atol=1e-1),
+               dict(dt_min=tm.dt(d) * 1.25, rtol=1e-12, atol=1e-12)][(bi + seed + d) % 4]
         try:
             if want_trace:
                 with LoopRecorder(bm) as rec:
-                    ys = p.sdeint(ts_f, tm.dt(d), bm)
+                    ys = p.sdeint(ts_f, tm.dt(d), bm, **irr)
             else:
-                ys = p.sdeint(ts_f, tm.dt(d), bm)
+                ys = p.sdeint(ts_f, tm.dt(d), bm, **irr)
         except Exception as e:  # noqa
-            fail("exception", f"sdeint raised {type(e).__name__}: {e}", beh)
+            fail("exception", f"sdeint raised {type(e).__name__}: {e} (options {irr})", beh)
             continue
         keys.append((f"{cfg_key(c)}|d={d}|T={T}|{layout_class(beh)}",
                      dict(config=cfg_key(c), ts_ticks=ts_u, dt_ticks=d, t0=job["t0"], tick=tm.tick)))
         got_q = [(tm.u(a), tm.u(b)) for a, b in bm.log]
         if got_q != [tuple(q) for q in beh["queries"]]:
-            fail("queries", f"ts={ts_u} d={d}: Brownian queries {got_q} != spec {beh['queries']}", beh)
+            fail("queries", f"ts={ts_u} d={d} options {irr}: Brownian queries {got_q} != spec {beh['queries']}", beh)
         if tuple(ys.shape) != (len(ts_u), p.batch, p.d) or ys.dtype != p.dtype:
             fail("shape", f"ts={ts_u}: shape {tuple(ys.shape)} dtype {ys.dtype}", beh)
             continue
@@ -994,6 +998,71 @@ def c13_group(job):
             sens[0] += 1
             sens[1] += int(not bits_equal(ys1, ys3))
     return dict(fails=fails, keys=keys, n=len(job["behs"]), sens=sens)
+
+
+def c13_nondyadic_group(job):
+    """C13 with a step size that is NOT exactly representable (dt = 0.1, 0.05, 1e-2 ...): "t1 lies on the step grid" then
+    means: t1 is, bit for bit, a step time of the one-shot solve.  The one-shot solve over [t0, T] is run under a
+    recording Brownian proxy, its step times are read from the query log, restart sets are drawn among them, and the
+    chunked solve (restarting from ys[-1] and the returned extra state, same Brownian object or an identically seeded
+    twin) must reproduce the one-shot solve over the same output times bit for bit - values, extra state, queries."""
+    torch.set_num_threads(1)
+    c, seed = job["c"], job["seed"]
+    import random as _r
+    rnd = _r.Random(f"{seed}:{cfg_key(c)}:nd")
+    p = Problem(c, seed)
+    fails, keys = [], []
+    for (t0, dt, nsteps, clip) in job["grids"]:
+        T = t0 + nsteps * dt + (0.37 * dt if clip else 0.0)
+        key = dict(label=c["label"], noise=c["noise"], dtype=c["dtype"], ts_kind=c["ts_kind"], check="chunk_values", grid="nondyadic")
+        try:
+            bm0 = p.bm(t0, T, max_calls=8 * nsteps + 64)
+            p.sdeint([t0, T], dt, bm0)
+            grid = [bm0.log[0][0]] + [b for (_, b) in bm0.log]
+            if any(b2 <= b1 for b1, b2 in zip(grid[:-1], grid[1:])):
+                fails.append((dict(key, check="queries"), f"dt={dt}: the one-shot step times {grid[:6]}... do not increase", dict(config=c, dt=dt)))
+                continue
+            interior = list(range(1, len(grid) - 1))
+            for rep in range(job["reps"]):
+                k = rnd.choice([1, 1, 2, 3])
+                cuts = sorted(rnd.sample(interior, min(k, len(interior))))
+                extra_outs = sorted(set(rnd.sample(interior, min(2, len(interior)))) | set(cuts))
+                idx = [0] + extra_outs + [len(grid) - 1]
+                ts_f = [grid[i] for i in idx]
+                same_obj = rep % 2 == 0
+                bm1 = p.bm(t0, T, max_calls=8 * nsteps + 64)
+                ys1, ex1 = p.sdeint(ts_f, dt, bm1, extra=True)
+                nq1 = len(bm1.log)
+                bm2 = bm1 if same_obj else p.bm(t0, T, max_calls=8 * nsteps + 64)
+                y, extra, pieces = p.y0, None, []
+                bounds = [0] + [idx.index(i) for i in cuts] + [len(idx) - 1]
+                for a, b in zip(bounds[:-1], bounds[1:]):
+                    kw = {} if extra is None else dict(extra_solver_state=extra)
+                    ys, extra = p.sdeint(ts_f[a:b + 1], dt, bm2, y0=y, extra=True, **kw)
+                    pieces.append(ys if a == 0 else ys[1:])
+                    y = ys[-1]
+                ys2 = torch.cat(pieces, dim=0)
+                q1 = bm1.log[:nq1]
+                q2 = bm2.log[nq1:] if same_obj else bm2.log
+                keys.append((f"nondyadic|{cfg_key(c)}|dt={dt}|n={nsteps}|clip={clip}|chunks={len(cuts) + 1}",
+                             dict(config=cfg_key(c), dt=dt, t0=t0, steps=nsteps, clipped_last_step=clip,
+                                  restart_times=[grid[i] for i in cuts], same_brownian_object=same_obj)))
+                rp = dict(config=c, seed=seed, nondyadic=dict(t0=t0, dt=dt, nsteps=nsteps, clip=clip, cuts=cuts, outs=idx))
+                if q1 != q2:
+                    j = next((j for j in range(min(len(q1), len(q2))) if q1[j] != q2[j]), min(len(q1), len(q2)))
+                    fails.append((dict(key, check="queries"),
+                                  f"dt={dt} t0={t0} restarts at step {cuts}: Brownian query {j} is {q1[j] if j < len(q1) else None!r} "
+                                  f"one-shot but {q2[j] if j < len(q2) else None!r} chunked ({len(q1)} vs {len(q2)} queries)", rp))
+                if ys1.shape != ys2.shape or not bits_equal(ys1, ys2):
+                    fails.append((key, f"dt={dt} t0={t0} ({c['dtype']}) restarts at steps {cuts} of {nsteps}: chunked outputs differ from "
+                                       f"one-shot, max diff {float((ys1 - ys2).abs().max()) if ys1.shape == ys2.shape else 'shape'}", rp))
+                if not _extra_equal(ex1, extra):
+                    fails.append((dict(key, check="chunk_extra"), f"dt={dt} restarts at steps {cuts}: final extra solver state differs", rp))
+                if len(fails) >= 6:
+                    break
+        except Exception as e:  # noqa
+            fails.append((dict(key, check="exception"), f"dt={dt} t0={t0}: {type(e).__name__}: {e}", dict(config=c, dt=dt)))
+    return dict(fails=fails, keys=keys)
 
 
 # ---------------------------------------------------------------------------------------------------------
